@@ -330,6 +330,9 @@ func runC16(c *Ctx) {
 				if v := (i*7 + k*3) % 10; v >= 5 && v < 9 {
 					st.Spell = v - 4
 				}
+				// an alias for the table (UPDATE t AS a SET a.c = ...), an INSERT without a column list
+				st.Alias = (i+2*k)%5 == 1
+				st.NoCols = (i+3*k)%4 == 2
 			}
 		}
 		c.Out.Count("datasource." + w.DBName + w.Tag)
